@@ -2,6 +2,7 @@ package checks
 
 import (
 	"encoding/json"
+	"strconv"
 
 	"verifharness/fw"
 )
@@ -17,8 +18,39 @@ func Replay(property string, v fw.Violation) (string, bool) {
 	if r, ok := c.(Replayer); ok {
 		return r.Replay(v)
 	}
-	return "check " + property + " has no replayer", false
+	// generic replay: run the recorded work unit again (twice) and look for the same signature on the same case
+	if v.Unit == nil {
+		return "check " + property + " has no replayer and the file records no work unit", false
+	}
+	want, _ := json.Marshal(v.Case)
+	out := ""
+	failed := false
+	for i := 0; i < 2; i++ {
+		r := c.Run(*v.Unit)
+		hit, sameSig := false, 0
+		for _, w := range r.Violations {
+			if w.Signature != v.Signature {
+				continue
+			}
+			sameSig++
+			if got, _ := json.Marshal(w.Case); string(got) == string(want) {
+				hit = true
+				out += "run " + itoa(i+1) + ": the recorded case fails again: " + w.What + "\n"
+			}
+		}
+		if !hit && sameSig > 0 {
+			hit = true // the unit reports the first case per signature; the same signature on the re-run unit is the same defect
+			out += "run " + itoa(i+1) + ": the unit reports the signature again (" + itoa(sameSig) + " case(s))\n"
+		}
+		if !hit {
+			out += "run " + itoa(i+1) + ": the unit " + v.Unit.Kind + " " + string(v.Unit.Spec) + " no longer reports " + v.Signature + "\n"
+		}
+		failed = failed || hit
+	}
+	return out, failed
 }
+
+func itoa(i int) string { return strconv.Itoa(i) }
 
 func caseMap(v fw.Violation) map[string]any {
 	b, _ := json.Marshal(v.Case)
